@@ -412,6 +412,7 @@ def run(chk, repo):
     from rules.shared import memo_shared
     chk.clauses.append('C13.i no parsing / record function of seqvar or circ is memoised while returning a mutable container (parsed records must not share attribute dictionaries)')
     memo_shared(chk, repo, 'C13.i', ['seqvar', 'circ'], floor=0)
+    index_written_whole(chk, repo, 'C13.k')
     from rules.shared import kwname
     chk.clauses.append('C13.kw (shared R-THREAD) parameters handed on as keyword arguments keep their name: no `a=b` between two parameters of one function')
     kwname(chk, repo, 'C13.kw', ['seqvar', 'circ', 'cli.index_gvf'], floor=0)
@@ -645,3 +646,32 @@ def info_shift_rules(chk, repo, rid):
            key=pa.qual + '::shift', fn=pa.qual)
 
     return wkey
+
+
+def index_written_whole(chk, repo, rid):
+    """R-ATOMIC: indexGVF opens <gvf>.idx for writing only AFTER every pointer has been generated (they are staged elsewhere first), so
+    a run that dies while scanning the GVF - a record that cannot be parsed, an interrupt - leaves no index behind.  A partial
+    index with a valid checksum line would be accepted by validate_gvf_index and hide every transcript behind the failure point.
+    Obligation: the loop over iterate_pointer(...) is not nested inside the `with open(output_file, 'w..')` block, and precedes it."""
+    from sa import sem
+    chk.rule(rid, 'R-ATOMIC: the .idx file is opened for writing only after the pointer generation has completed', 1)
+    chk.clauses.append('C13.k indexGVF generates all pointers before it opens the .idx file for writing: an aborted run leaves no truncated index with a valid checksum')
+    f = repo.func('cli.index_gvf:index_gvf')
+    chk.uses(f)
+    loops = []
+    for l in ast.walk(f.node):
+        if isinstance(l, ast.For):
+            it = sem.expand_names(f.node, l, l.iter, allow_calls=('iterate_pointer',))
+            if isinstance(it, ast.Call) and call_name(it) == 'iterate_pointer':
+                loops.append(l)
+    outs = [(w, i) for w in ast.walk(f.node) if isinstance(w, ast.With) for i in w.items
+            if isinstance(i.context_expr, ast.Call) and call_name(i.context_expr) == 'open' and i.context_expr.args
+            and unparse(i.context_expr.args[0]) == 'output_file' and any(isinstance(a, ast.Constant) and isinstance(a.value, str) and ('w' in a.value or 'a' in a.value)
+                                                                       for a in list(i.context_expr.args[1:]) + [k.value for k in i.context_expr.keywords])]
+    if len(loops) != 1 or len(outs) != 1:
+        chk.undecided(rid, 'index staging', f.where, f"{len(loops)} loops over iterate_pointer(...) / {len(outs)} `with open(output_file, 'w')` blocks found", key=f.qual + '::atomic', fn=f.qual)
+        return
+    inside = any(x is loops[0] for x in ast.walk(outs[0][0]))
+    chk.ob(rid, 'pointers are generated outside (before) the block that writes the .idx', repo.loc(f, loops[0]), not inside and loops[0].lineno < outs[0][0].lineno,
+           'the pointer loop runs while the .idx is already open for writing: an aborted indexGVF leaves a truncated index with a valid checksum line, which '
+           'validate_gvf_index accepts - transcripts after the failure point vanish from indexed access', key=f.qual + '::atomic', fn=f.qual)
